@@ -99,7 +99,7 @@ struct C09 : Harness {
         Transcript t = ex.run(p);
         for (size_t i = 0; i < t.size(); ++i)
             if (!t[i].err.empty()) return "op #" + std::to_string(i) + " [" + ser(p[i]).substr(0, 200) + "]: " + t[i].err;
-        bool odd = false, ovl = false, partial = false;
+        bool odd = false, ovl = false, partial = false, straddled = false;
         for (auto &op : p) {
             for (const char *k : {"io", "oo", "ko", "to", "co"}) if (op.geti(k) & 1) odd = true;
             if (op.has("ov") && op.geti("ov") != 0) ovl = true;
@@ -114,6 +114,18 @@ struct C09 : Harness {
             CmpOpts co; co.img = true;
             std::string d = cmp_transcripts(p, t, tb, co, "placement-A", "placement-B");
             if (!d.empty()) return "result depends on buffer alignment: " + d;
+            // (c') ... and with the buffers around the 4 GiB address line (bit 31 set, one buffer crossing 2^32)
+            {
+                ExecOptions e3 = eo; e3.straddle_4g = 64 * (1 + (int)(fnv64(ser(p)) % 9));
+                Exec exl(api, e3);
+                if (exl.straddles_4g()) {
+                    Transcript tl = exl.run(p);
+                    CmpOpts co2; co2.img = true;
+                    std::string d2 = cmp_transcripts(p, t, tl, co2, "ordinary addresses", "buffers at the 4 GiB line");
+                    if (!d2.empty()) return "result depends on where the buffers are: " + d2;
+                    straddled = true;
+                }
+            }
             // (d) overlapping single-block buffers / in-place bulk calls => same as disjoint
             Program q = p;
             if (strip_overlap(q)) {
@@ -128,7 +140,28 @@ struct C09 : Harness {
         if (!st.shrinking) {
             int be = -1; for (auto &r : t) if (r.be >= 0) be = r.be;
             st.count(std::string("kind/") + p[0].name.substr(4) + (be >= 0 ? "/be" + std::to_string(be) : ""));
+            if (straddled) st.count("re-run-with-buffers-at-the-4GiB-address-line");
             if (odd) st.count("odd-offset"); if (ovl) st.count("overlap-or-in-place"); if (partial) st.count("partial-vector-batch");
+            // the statement's placement matrix: function (x back end) x pointer argument x address mod 16, overlap distance of
+            // single-block calls, in-place bulk calls (arena placement only: offsets are relative to a 64-byte boundary there)
+            if (!heap) {
+                int curbe = -1;
+                for (size_t i = 0; i < p.size(); ++i) {
+                    const Op &op = p[i];
+                    if (op.name.rfind("new.", 0) == 0) continue;
+                    if (t[i].be >= 0) curbe = t[i].be;
+                    if (op.name.find(".cleanup") != std::string::npos || op.name.find(".init") != std::string::npos || op.name.find(".swap") != std::string::npos) continue;
+                    std::string f = op.name + (curbe >= 0 ? "@be" + std::to_string(curbe) : "");
+                    bool shared_buf = op.has("ov") || op.geti("ip");
+                    if (op.getb("in")) st.count("place/" + f + "/in@" + std::to_string(op.geti("io") & 15));
+                    if (op.getb("in") && !shared_buf) st.count("place/" + f + "/out@" + std::to_string(op.geti("oo") & 15));
+                    if (op.getb("key")) st.count("place/" + f + "/key@" + std::to_string(op.geti("ko") & 15));
+                    if (op.getb("tweak")) st.count("place/" + f + "/tweak@" + std::to_string(op.geti("to") & 15));
+                    if (op.getb("ctr")) st.count("place/" + f + "/ctr@" + std::to_string(op.geti("co") & 15));
+                    if (op.has("ov")) st.count("overlap/" + op.name + "/" + std::to_string(op.geti("ov")));
+                    if (op.geti("ip")) st.count("inplace/" + f);
+                }
+            }
             st.extra["library_calls"] += (double)p.size() - 1;
             st.case_done(ser(p), odd || ovl || partial);
         }
